@@ -56,8 +56,16 @@ def inline_call(fd, bb, gd):
     g = copy.deepcopy(gd)
     fd["locals"].extend(g["locals"])
     prom = g.get("promoted")
+    taken = {v["name"] for v in fd.get("debug", [])}
     for v in g.get("debug", []):
         _shift_place(v["place"], off)
+        # a helper's local must not capture the name of one of the caller's variables (rules look variables up by name)
+        if v["name"] in taken:
+            k = 1
+            while "%s~%d" % (v["name"], k) in taken:
+                k += 1
+            v["name"] = "%s~%d" % (v["name"], k)
+        taken.add(v["name"])
         fd["debug"].append(v)
     dest = t["dest"]
     target = t["target"]
